@@ -129,7 +129,17 @@ DowncastCases ==
     allowed |-> SetToSeq({IName(j) : j \in {i \in {1, 2} : i = k /\ (k2 = 0 \/ k2 = i)}}),
     sat |-> IF k \in {1, 2} /\ (k2 = 0 \/ k2 = k) THEN 1 ELSE 0] : k \in 1..3, k2 \in 0..3, k4 \in {1, 2}}
 
-Cases == {ObjCase(c) : c \in {x \in RawCases : WellTyped(x)}} \cup HolderCases \cup RangeCases \cup EnumCases \cup DowncastCases
+\* an enum that includes an enum that includes an enum
+NestedEnumCases ==
+  {[kind |-> "verdict", fam |-> "enum",
+    text |-> "enum L {" \o EnumVals("l", nL) \o "}; enum M {" \o EnumVals("m", 1) \o "} | L; enum T {" \o EnumVals("t", 1) \o "} | M; T " \o VarList(k) \o "; " \o AllDiff(1, k),
+    var |-> "x1", dom0 |-> <<>>, allowed |-> <<>>, sat |-> IF k <= 2 + nL THEN 1 ELSE 0] : nL \in 1..2, k \in 2..5}
+  \cup
+  {[kind |-> "verdict", fam |-> "enum",
+    text |-> "enum L {" \o EnumVals("l", 2) \o "}; enum M {" \o EnumVals("m", 1) \o "} | L; enum T {" \o EnumVals("t", 1) \o "} | M; T x1; L y; x1 == y; ",
+    var |-> "x1", dom0 |-> <<>>, allowed |-> <<>>, sat |-> 1]}
+
+Cases == {ObjCase(c) : c \in {x \in RawCases : WellTyped(x)}} \cup HolderCases \cup RangeCases \cup EnumCases \cup NestedEnumCases \cup DowncastCases
 ASSUME ndJsonSerialize(Out, SetToSeq(Cases))
 ASSUME PrintT(<<"GENERATED", Cardinality(Cases)>>)
 
